@@ -6,10 +6,13 @@ import UF.Model.RegexParse
   C05 — the shortcut pre-check never rejects a request the rule accepts.
   Property theorems only (helper lemmas live in UF/Proofs/Regex.lean, Shortcut.lean, ShortcutBytes.lean).
 
-  Regular-expression rules: `c05_re` (every required literal of the parse tree is a factor of the
-  lower-cased subject of every successful match, for case-sensitive and `(?i)` matching alike),
-  `c05_regex_shortcut` (hence so is the shortcut `findRegexpShortcut` keeps, for an ARBITRARY candidate
-  list), `c05_regex_rule` / `c05_regex_model` (hence `Match` is unchanged without the shortcut test).
+  Regular-expression rules: `c05_re` / `c05_re_fold` (every required literal of the parse tree is a
+  factor of the lower-cased subject of every successful match, for case-sensitive and `(?i)` matching
+  alike), `c05_runs` (the same for literal pieces merged across concatenations), `c05_justified` /
+  `c05_justified_runs` (a shortcut contained in such a literal is a factor of every accepted subject –
+  the per-rule check of the `c05.shortcut` op), `c05_regex_shortcut` (so is the shortcut that
+  `findRegexpShortcut` keeps, for an ARBITRARY candidate list), `c05_regex_rule` / `c05_regex_model`
+  (hence `Match` is unchanged without the shortcut test).
   Mask rules: `c05_mask_total`, `c05_mask_run` (the `IndexAny` loop does not panic and returns `""` or a
   maximal separator-free run of the pattern) and `c05_mask_atoms` (a run of literal atoms in the compiled
   concatenation is a factor of every accepted subject); the composition with the mask compiler
